@@ -135,6 +135,7 @@ func main() {
 	writeIfChanged(filepath.Join(*out, "Opts.lean"), genOpts())
 	facts := collectFacts()
 	writeIfChanged(filepath.Join(*out, "Facts.lean"), genFacts(facts))
+	writeIfChanged(filepath.Join(*out, "Locks.lean"), genLocks())
 	if *factsJSON != "" {
 		b, _ := json.MarshalIndent(facts, "", " ")
 		writeIfChanged(*factsJSON, string(b)+"\n")
